@@ -44,7 +44,9 @@ LEVEL_TEXT = ("Two parts. (1) PROOF, for all legal histories of any length (Lean
               "rerouted set = ConnRef::needsRepaint() exactly; with the guarded hook (ADAPTAGRAMS_VERIF_REROUTE_HOOK) also "
               "m_needs_reroute_flag, m_false_path, m_route_dist (within 1e-9 of the route length) and "
               "m_static_orthogonal_graph_invalidated at the start of rerouteAndCallbackConnectors, and the same members "
-              "after the transaction; Obstacle::routingPolygon() of every obstacle is tied to the model's geometry.")
+              "after the transaction; Obstacle::routingPolygon() of every obstacle is tied to the model's geometry; for polyline routers "
+              "Router::contains of every connector end equals the from-scratch set (active obstacles whose routing "
+              "polygon strictly contains the point, Model.Geometry.inPoly) after every processing point.")
 LEVEL_NOTE = ("Reroute model: the new routes themselves are inputs (A* is not modelled); a could-be-shorter comparison "
               "closer than 1e-9 is not compared (counted reroute.too-close-to-call); the rotated (non axis-parallel side) "
               "branch of the estimate (atan2/cos/sin) is not modelled - obstacles are rectangles; `new JunctionRef` with "
